@@ -5,11 +5,19 @@
 //   --schedules FILE      replay each schedule of FILE (one JSON array per line)
 //   --random N --seed S [--pct D]   N random controlled executions
 //   --randprog            with --random: also draw a random (contract-respecting) program
+//   --stress N --seed S   E5: N free-running rounds (real threads, no controller), one observation
+//                         record per round (see namespace fr below; validated by ChaseLevObs.tla)
 // The element type is int (the deque requires a trivially copyable T, so the lifetime-tracked
 // payload of the other ring drivers cannot be stored; elements are tagged by value).
 #include <dispenso/chase_lev_deque.h>
 
+#include <sched.h>
+#include <time.h>
 #include <unistd.h>
+
+#include <atomic>
+#include <string>
+#include <thread>
 
 #include "../ctl/ctl.h"
 #include "../ctl/drv_common.h"
@@ -190,8 +198,377 @@ static const Kind kKinds[] = {
 };
 static const int kNumKinds = (int)(sizeof(kKinds) / sizeof(kKinds[0]));
 
+// =============================================================================================
+// E5: free-running rounds (--stress N --seed S).  Real threads, no ctl::Controller (the hooks are
+// inert), one owner + 1..3 stealers truly concurrent on a ChaseLevDeque<int, 1|2|4|8> that lives
+// across rounds (so top/bottom sit at every offset modulo the capacity).  One observation record
+// per round, validated by spec/chaselev/ChaseLevObs.tla:
+//   {"e":"Round","round":r,"stuck":0,"cap":c,"ns":n,"mode":m,
+//    "o":[[kind,arg,res],...]   owner operations in program order; kind 1 push(arg) res 1/0,
+//                               2 pop, 3 pop_into, 4 steal, 5 steal_into (res value or 0),
+//                               6 size() (res), 7 empty() (res 1/0)
+//    "s":[[v,...],...]          per stealer: the values of its successful steals, in program order
+//    "mx":[..]                  per stealer: largest size() it saw (0 if it never asked)
+//    "qsize","qempty"           size()/empty() once every thread of the round has stopped
+//    "d":[[kind,res],...]       the owner then drains qsize elements, quiescent (kinds 2..5)
+//    "fpop","fsteal","fsize","fempty"   and asks once more: try_pop, try_steal, size(), empty()}
+// mode 0: the stealers go on until the owner is done AND the deque is drained; mode 1: they stop as
+// soon as the owner is done (what is left is taken by the quiescent drain).
+// Values: every push attempt of a round uses the next integer 1,2,3,... (order by value = push order).
+namespace fr {
+
+constexpr int kMaxSt = 3;
+constexpr int kMaxOps = 56; // owner operations per round (program + own drain)
+constexpr int kMaxGot = 64; // > kMaxOps: a stealer that fills this has certainly invented values
+constexpr long long kGraceNs = 10LL * 1000 * 1000 * 1000;
+
+struct OpRec {
+  int kind, arg, res;
+};
+
+struct Shared {
+  alignas(64) std::atomic<int> done{0}; // the owner has finished its program of this round
+  alignas(64) std::atomic<long long> progress{0}; // watchdog: bumped at every round start
+  std::atomic<long long> curRound{-1};
+  std::atomic<int> finished{0};
+  struct alignas(64) PerSt {
+    std::atomic<long long> go{-1}; // round this stealer takes part in (-2: shut down)
+    std::atomic<long long> entered{-1}, fin{-1};
+    // parameters (written by the owner before go, release/acquire through go; the owner does not
+    // touch them, nor capIdx/mode below, before it has seen fin == go)
+    uint64_t seed = 0;
+    unsigned spin = 0, pause = 0;
+    // results (written by the stealer before fin)
+    int ngot = 0, mx = 0;
+    int got[kMaxGot];
+  } st[kMaxSt];
+  // round parameters (ns is read by the owner only)
+  int capIdx = 0, ns = 1, mode = 0;
+};
+static Shared sh; // static: stuck threads may outlive runStress
+
+static long long nowNs() {
+  struct timespec ts;
+  clock_gettime(CLOCK_MONOTONIC, &ts);
+  return (long long)ts.tv_sec * 1000000000LL + ts.tv_nsec;
+}
+
+static inline void relax(unsigned& n) {
+  // the machine is shared: do not burn a time slice waiting for a descheduled thread
+  if (++n > 256)
+    sched_yield();
+  else
+    __builtin_ia32_pause();
+}
+
+static inline void spinFor(unsigned n) {
+  for (volatile unsigned k = 0; k < n; ++k) {
+  }
+}
+
+static dispenso::ChaseLevDeque<int, 1> g_d1;
+static dispenso::ChaseLevDeque<int, 2> g_d2;
+static dispenso::ChaseLevDeque<int, 4> g_d4;
+static dispenso::ChaseLevDeque<int, 8> g_d8;
+
+template <class DQ>
+static void stealerRound(DQ& dq, Shared::PerSt& me, int mode) {
+  uint64_t rng = me.seed;
+  int n = 0, mx = 0;
+  spinFor(me.spin);
+  for (;;) {
+    // read the flag BEFORE the attempt: once the owner is done nothing is pushed any more, so an
+    // empty() that is true afterwards stays true
+    int d = sh.done.load(std::memory_order_acquire);
+    unsigned r = (unsigned)ctl::splitmix(rng);
+    if ((r & 31) == 0) {
+      int s = (int)dq.size();
+      if (s > mx)
+        mx = s;
+    } else if (r & 32) {
+      int out = -7;
+      if (dq.try_steal(out))
+        me.got[n++] = out;
+    } else {
+      alignas(int) char buf[sizeof(int)];
+      if (dq.try_steal_into(reinterpret_cast<int*>(buf)))
+        me.got[n++] = *reinterpret_cast<int*>(buf);
+    }
+    if (n >= kMaxGot)
+      break;
+    if (d && (mode == 1 || dq.empty()))
+      break;
+    if (me.pause)
+      spinFor((r >> 8) % (me.pause + 1));
+  }
+  me.ngot = n;
+  me.mx = mx;
+}
+
+template <class DQ>
+static void stealerEntry(void* dq, Shared::PerSt& me, int mode) {
+  stealerRound(*static_cast<DQ*>(dq), me, mode);
+}
+
+// owner side of one round; returns the record
+template <class DQ>
+static void ownerRound(DQ& dq, uint64_t& rng, long long round, std::string& rec, long long& nops) {
+  const int cap = (int)DQ::capacity();
+  const int ns = sh.ns, mode = sh.mode;
+  OpRec ops[kMaxOps];
+  int no = 0;
+  int next = 1; // value of the next push attempt
+  int est = 0; // owner's own count: accepted pushes - successful pops (only shapes the program)
+  // profile: 0 nearly empty (push/pop ping-pong: the last-element race), 1 nearly full (wrap-around,
+  // rejected pushes), 2 uniform mix
+  const int profile = (int)(ctl::splitmix(rng) % 3);
+  const int nprog = 4 + (int)(ctl::splitmix(rng) % 29);
+  const bool ownDrain = (ctl::splitmix(rng) & 1) != 0;
+  const unsigned opPause = (ctl::splitmix(rng) % 4 == 0) ? (unsigned)(ctl::splitmix(rng) % 48) : 0;
+  const unsigned startSpin = (unsigned)(ctl::splitmix(rng) % 300);
+  // wait until every stealer of the round is awake, then start at a random offset
+  unsigned w = 0;
+  for (int i = 0; i < ns; ++i)
+    while (sh.st[i].entered.load(std::memory_order_acquire) != round)
+      relax(w);
+  spinFor(startSpin);
+  auto perform = [&](int kind) {
+    OpRec o{kind, 0, 0};
+    switch (kind) {
+      case 1:
+        o.arg = next++;
+        o.res = dq.try_push(o.arg) ? 1 : 0;
+        est += o.res;
+        break;
+      case 2: {
+        int out = -7;
+        o.res = dq.try_pop(out) ? out : 0;
+        break;
+      }
+      case 3: {
+        alignas(int) char buf[sizeof(int)];
+        o.res = dq.try_pop_into(reinterpret_cast<int*>(buf)) ? *reinterpret_cast<int*>(buf) : 0;
+        break;
+      }
+      case 4: {
+        int out = -7;
+        o.res = dq.try_steal(out) ? out : 0;
+        break;
+      }
+      case 5: {
+        alignas(int) char buf[sizeof(int)];
+        o.res = dq.try_steal_into(reinterpret_cast<int*>(buf)) ? *reinterpret_cast<int*>(buf) : 0;
+        break;
+      }
+      case 6:
+        o.res = (int)dq.size();
+        break;
+      default:
+        o.res = dq.empty() ? 1 : 0;
+        break;
+    }
+    if (kind == 2 || kind == 3) {
+      if (o.res)
+        --est;
+      else
+        est = 0;
+    }
+    ops[no++] = o;
+    return o.res;
+  };
+  for (int k = 0; k < nprog; ++k) {
+    unsigned r = (unsigned)(ctl::splitmix(rng) % 100);
+    int kind;
+    if (r < 4)
+      kind = 4 + (int)(ctl::splitmix(rng) & 1); // the owner may steal too
+    else if (r < 8)
+      kind = 6 + (int)(ctl::splitmix(rng) & 1);
+    else {
+      unsigned pushPct = profile == 0 ? (est == 0 ? 90 : 25) : profile == 1 ? 80 : 50;
+      kind = (ctl::splitmix(rng) % 100 < pushPct) ? 1 : 2 + (int)(ctl::splitmix(rng) & 1);
+    }
+    perform(kind);
+    if (opPause)
+      spinFor((unsigned)(ctl::splitmix(rng) % (opPause + 1)));
+  }
+  if (ownDrain) // the owner pops against the stealers until a pop fails
+    for (int k = 0; k < 16; ++k)
+      if (!perform(2 + (int)(ctl::splitmix(rng) & 1)))
+        break;
+  sh.done.store(1, std::memory_order_release);
+  w = 0;
+  for (int i = 0; i < ns; ++i)
+    while (sh.st[i].fin.load(std::memory_order_acquire) != round)
+      relax(w);
+  // quiescent: nobody but this thread touches the deque now
+  const int qsize = (int)dq.size(), qempty = dq.empty() ? 1 : 0;
+  OpRec dr[kMaxGot];
+  int nd = 0;
+  for (int k = 0; k < qsize && k < kMaxGot; ++k) {
+    int kind = 2 + (int)(ctl::splitmix(rng) & 3);
+    int save = no;
+    int res = perform(kind);
+    no = save;
+    dr[nd++] = OpRec{kind, 0, res};
+  }
+  int out = -7;
+  const int fpop = dq.try_pop(out) ? out : 0;
+  const int fsteal = dq.try_steal(out) ? out : 0;
+  const int fsize = (int)dq.size(), fempty = dq.empty() ? 1 : 0;
+  nops += no + nd + 4;
+  // ---- record
+  char buf[160];
+  snprintf(buf, sizeof buf, "{\"e\":\"Round\",\"round\":%lld,\"stuck\":0,\"cap\":%d,\"ns\":%d,\"mode\":%d,\"o\":[",
+           round, cap, ns, mode);
+  rec = buf;
+  for (int k = 0; k < no; ++k) {
+    snprintf(buf, sizeof buf, "%s[%d,%d,%d]", k ? "," : "", ops[k].kind, ops[k].arg, ops[k].res);
+    rec += buf;
+  }
+  rec += "],\"s\":[";
+  for (int i = 0; i < ns; ++i) {
+    rec += i ? ",[" : "[";
+    for (int k = 0; k < sh.st[i].ngot; ++k) {
+      snprintf(buf, sizeof buf, "%s%d", k ? "," : "", sh.st[i].got[k]);
+      rec += buf;
+    }
+    rec += "]";
+  }
+  rec += "],\"mx\":[";
+  for (int i = 0; i < ns; ++i) {
+    snprintf(buf, sizeof buf, "%s%d", i ? "," : "", sh.st[i].mx);
+    rec += buf;
+  }
+  snprintf(buf, sizeof buf, "],\"qsize\":%d,\"qempty\":%d,\"d\":[", qsize, qempty);
+  rec += buf;
+  for (int k = 0; k < nd; ++k) {
+    snprintf(buf, sizeof buf, "%s[%d,%d]", k ? "," : "", dr[k].kind, dr[k].res);
+    rec += buf;
+  }
+  snprintf(buf, sizeof buf, "],\"fpop\":%d,\"fsteal\":%d,\"fsize\":%d,\"fempty\":%d}\n", fpop, fsteal, fsize,
+           fempty);
+  rec += buf;
+}
+
+using StealFn = void (*)(void*, Shared::PerSt&, int);
+using OwnerFn = void (*)(uint64_t&, long long, std::string&, long long&);
+template <class DQ, DQ* D>
+static void ownerEntry(uint64_t& rng, long long round, std::string& rec, long long& nops) {
+  ownerRound(*D, rng, round, rec, nops);
+}
+struct CapKind {
+  void* dq;
+  StealFn steal;
+  OwnerFn owner;
+};
+static const CapKind kCaps[] = {
+    {&g_d1, &stealerEntry<decltype(g_d1)>, &ownerEntry<decltype(g_d1), &g_d1>},
+    {&g_d2, &stealerEntry<decltype(g_d2)>, &ownerEntry<decltype(g_d2), &g_d2>},
+    {&g_d4, &stealerEntry<decltype(g_d4)>, &ownerEntry<decltype(g_d4), &g_d4>},
+    {&g_d8, &stealerEntry<decltype(g_d8)>, &ownerEntry<decltype(g_d8), &g_d8>},
+};
+
+static void stealerThread(int idx) {
+  Shared::PerSt& me = sh.st[idx];
+  long long seen = -1;
+  unsigned w = 0;
+  for (;;) {
+    long long r = me.go.load(std::memory_order_acquire);
+    if (r == -2)
+      return;
+    if (r == seen) {
+      relax(w);
+      continue;
+    }
+    seen = r;
+    const CapKind& ck = kCaps[sh.capIdx];
+    const int mode = sh.mode;
+    me.entered.store(r, std::memory_order_release);
+    ck.steal(ck.dq, me, mode);
+    me.fin.store(r, std::memory_order_release);
+    w = 0;
+  }
+}
+
+static int runStress(const drv::Args& a) {
+  std::string out = a.str("out", "stress.ndjson");
+  FILE* f = fopen(out.c_str(), "w");
+  if (!f)
+    return 2;
+  static char fbuf[1 << 20];
+  setvbuf(f, fbuf, _IOFBF, sizeof fbuf);
+  const long long rounds = a.num("stress", 1000);
+  uint64_t rng = (uint64_t)a.num("seed", 1) * 0x9e3779b97f4a7c15ULL + 36;
+  std::thread stealers[kMaxSt];
+  for (int i = 0; i < kMaxSt; ++i)
+    stealers[i] = std::thread(stealerThread, i);
+  // watchdog: a round that does not finish within the grace period is reported as such; the
+  // validator rejects that record
+  std::thread dog([f]() {
+    long long last = -1, since = nowNs();
+    while (!sh.finished.load(std::memory_order_acquire)) {
+      usleep(50 * 1000);
+      long long p = sh.progress.load(std::memory_order_acquire);
+      if (p != last) {
+        last = p;
+        since = nowNs();
+      } else if (nowNs() - since > kGraceNs && !sh.finished.load(std::memory_order_acquire)) {
+        long long r = sh.curRound.load(std::memory_order_acquire);
+        fprintf(f, "{\"e\":\"Round\",\"round\":%lld,\"stuck\":1,\"cap\":0,\"ns\":0,\"mode\":0,\"o\":[],\"s\":[],"
+                   "\"mx\":[],\"qsize\":0,\"qempty\":0,\"d\":[],\"fpop\":0,\"fsteal\":0,\"fsize\":0,\"fempty\":0}\n",
+                r);
+        fflush(f);
+        printf("DRIVER executions=%lld steps=0 completed=%lld deadlocks=1 diverged=0 stuck=0\n", r + 1, r);
+        fflush(stdout);
+        _exit(0);
+      }
+    }
+  });
+  long long nops = 0;
+  std::string rec;
+  for (long long r = 0; r < rounds; ++r) {
+    sh.curRound.store(r, std::memory_order_release);
+    sh.progress.fetch_add(1, std::memory_order_acq_rel);
+    sh.capIdx = (int)(ctl::splitmix(rng) % 4);
+    sh.ns = 1 + (int)(ctl::splitmix(rng) % kMaxSt);
+    sh.mode = (ctl::splitmix(rng) % 4 == 0) ? 1 : 0;
+    // per round: eager stealers (deque nearly empty) or lazy ones (deque fills up)
+    const unsigned lazy = (ctl::splitmix(rng) % 3 == 0) ? 400 : (ctl::splitmix(rng) & 1) ? 40 : 0;
+    for (int i = 0; i < sh.ns; ++i) {
+      sh.st[i].seed = ctl::splitmix(rng);
+      sh.st[i].spin = (unsigned)(ctl::splitmix(rng) % 300);
+      sh.st[i].pause = lazy ? (unsigned)(ctl::splitmix(rng) % lazy) : 0;
+      sh.st[i].ngot = 0;
+      sh.st[i].mx = 0;
+    }
+    sh.done.store(0, std::memory_order_release);
+    for (int i = 0; i < sh.ns; ++i)
+      sh.st[i].go.store(r, std::memory_order_release);
+    kCaps[sh.capIdx].owner(rng, r, rec, nops);
+    fwrite(rec.data(), 1, rec.size(), f);
+  }
+  sh.finished.store(1, std::memory_order_release);
+  for (int i = 0; i < kMaxSt; ++i)
+    sh.st[i].go.store(-2, std::memory_order_release);
+  for (auto& t : stealers)
+    t.join();
+  dog.join();
+  fclose(f);
+  printf("DRIVER executions=%lld steps=%lld completed=%lld deadlocks=0 diverged=0 stuck=0\n", rounds, nops,
+         rounds);
+  fflush(stdout);
+  return 0;
+}
+
+} // namespace fr
+
 int main(int argc, char** argv) {
   drv::Args a(argc, argv);
+  if (a.has("stress")) {
+    int rc = fr::runStress(a);
+    fflush(stdout);
+    _exit(rc);
+  }
   ctl::Trace tr(a.str("out", "trace.ndjson"));
   drv::Totals tot;
   std::string capName = a.str("cap", "2");
